@@ -149,6 +149,7 @@ def verify(h, repo, tier="quick", log=None):
             c = Ctx(theory=theory, budget_ms=timeout)
             c.repo = repo
             c.contracts = h.contracts(repo)
+            c.state_case = case
             return c
 
         def run(c):
